@@ -225,6 +225,14 @@ def _check_views(obj, led, viol):
                          "view %r at resolution %s = %s, ledger says %s"
                          % (flag, res, got.tolist(), exp.tolist()),
                          {"ledger": [(l, d, str(t)) for (l, d, t, a) in led.entries]}))
+    views = []          # (kind, name, flag, tag) of every view read below
+
+    cmp0 = cmp
+
+    def cmp_(kind, name, flag, tag=None):
+        views.append((kind, name, flag, tag))
+        cmp0(kind, name, flag, tag)
+    cmp = cmp_
     cmp("total", None, tot)
     if res in ("pathways", "types", "signals"):
         for s in sig:
@@ -241,6 +249,29 @@ def _check_views(obj, led, viol):
         for (l, d, t, a) in led.entries:
             if l == "pathways" and t is not None:
                 cmp("pathway", d, [d, t], tag=t)
+    cmp = cmp0
+    # sequences of reads: the view read SECOND does not depend on which view was read first
+    # (all ordered pairs whose first member is a pathway or pathway-type view - the reads that
+    # leave a tag selected)
+    firsts = [v for v in views if v[0] in ("pathway", "type")]
+    for (k1, n1, f1, t1) in firsts:
+        for (k2, n2, f2, t2) in views:
+            if (k1, n1, t1) == (k2, n2, t2):
+                continue
+            try:
+                _read(obj, f1)
+                got = _as_array(_read(obj, f2), shape)
+            except Exception as e:
+                viol.append(("view-unreadable/%s/%s-after-%s" % (res, k2, k1),
+                             "reading %r after %r raised %s" % (f2, f1, e), None))
+                continue
+            n += 1
+            exp = led.view(k2, n2, shape, t2)
+            if exp is not None and (got.shape != shape or not numpy.array_equal(got, exp)):
+                viol.append(("view-depends-on-previous-read/%s-after-%s/at-%s" % (k2, k1, res),
+                             "view %r read right after view %r = %s, ledger says %s"
+                             % (f2, f1, got.tolist(), exp.tolist()), None))
+                break
     # get_all_data: the pieces handed out add up to the total
     try:
         pieces = obj.get_all_data()
